@@ -94,3 +94,61 @@ Print Assumptions C02_confined8_is_burst.
 Print Assumptions C02_confined8_burst_never_accepted.
 Print Assumptions C02_confined8_burst_process_inert.
 Print Assumptions C02_confined8_example_prop.
+
+(* (7) one and two flipped bits.  `bit_err n i` is the n-byte pattern whose only set bit is bit i (MSB-first numbering
+   as above), `two_bit n i j` has exactly bits i and j set (TwoBit.v).  CRC-8 with x^8+x^2+x+1 has Hamming distance 3
+   up to 127 bits: the multiplicative order of x modulo the polynomial is 127 (`x_order`).  Hence a single flipped
+   bit anywhere, and two flipped bits whose distance is not a multiple of 127, never map an accepted packet to an
+   accepted packet ... *)
+Require Import BurstBits TwoBit.
+
+Theorem C02_one_bit_never_accepted : forall p d i, bytes_ok p -> decode_packet p = Val (inl d) ->
+  (i < 8 * length p)%nat -> forall d', decode_packet (xorl p (bit_err (length p) i)) <> Val (inl d').
+Proof. exact one_bit_never_accepted. Qed.
+
+Theorem C02_two_bits_never_accepted : forall p d i j, bytes_ok p -> decode_packet p = Val (inl d) ->
+  (i < j)%nat -> (j < 8 * length p)%nat -> ((j - i) mod 127 <> 0)%nat ->
+  forall d', decode_packet (xorl p (two_bit (length p) i j)) <> Val (inl d').
+Proof. exact two_bit_never_accepted. Qed.
+
+Theorem C02_two_bits_process_inert : forall ovf c p buf d i j, bytes_ok p -> decode_packet p = Val (inl d) ->
+  (i < j)%nat -> (j < 8 * length p)%nat -> ((j - i) mod 127 <> 0)%nat ->
+  exists r, process_packet ovf c (xorl p (two_bit (length p) i j)) buf = ((c, buf), r) /\ forall x, r <> Val (inl x).
+Proof. exact two_bit_process_never_ok. Qed.
+
+(* ... and the side condition is necessary, for every packet: two flips a multiple of 127 bits apart leave the CRC
+   of the whole string at 0, so the PEC check cannot notice them (a limit of the 8-bit PEC, not of the library) *)
+Theorem C02_two_bits_127_apart_pass_the_pec : forall p i j, bytes_ok p -> pec p = 0 ->
+  (i < j)%nat -> (j < 8 * length p)%nat -> ((j - i) mod 127 = 0)%nat ->
+  pec (xorl p (two_bit (length p) i j)) = 0.
+Proof. exact two_bit_blind. Qed.
+
+(* witness: a 30-byte PCI vendor message, bits 90 and 217 (both in the payload) flipped: still accepted *)
+Theorem C02_two_bits_127_apart_still_accepted : exists p i j d d', bytes_ok p /\ (i < j)%nat /\ (j < 8 * length p)%nat /\
+  (j - i = 127)%nat /\ decode_packet p = Val (inl d) /\
+  decode_packet (xorl p (two_bit (length p) i j)) = Val (inl d') /\ xorl p (two_bit (length p) i j) <> p.
+Proof. exact two_bits_127_apart_undetected. Qed.
+
+Print Assumptions C02_one_bit_never_accepted.
+Print Assumptions C02_two_bits_never_accepted.
+Print Assumptions C02_two_bits_process_inert.
+Print Assumptions C02_two_bits_127_apart_pass_the_pec.
+Print Assumptions C02_two_bits_127_apart_still_accepted.
+
+(* (8) any odd number of flipped bits.  The PEC polynomial has the factor x+1, so the parity of the remainder is the
+   parity of the message (OddWeight.v: `par_crc_from`); an error pattern with an odd number of set bits (counted in
+   the MSB-first bit numbering above) therefore never maps an accepted packet to an accepted packet *)
+Require Import OddWeight.
+
+Theorem C02_odd_number_of_flipped_bits_never_accepted : forall p e d, bytes_ok p -> decode_packet p = Val (inl d) ->
+  bytes_ok e -> length e = length p -> Nat.odd (length (filter (ebit e) (seq 0 (8 * length e)))) = true ->
+  forall d', decode_packet (xorl p e) <> Val (inl d').
+Proof. exact odd_number_of_flipped_bits_never_accepted. Qed.
+
+Theorem C02_odd_number_of_flipped_bits_process_inert : forall ovf c p e buf d, bytes_ok p -> decode_packet p = Val (inl d) ->
+  bytes_ok e -> length e = length p -> Nat.odd (length (filter (ebit e) (seq 0 (8 * length e)))) = true ->
+  exists r, process_packet ovf c (xorl p e) buf = ((c, buf), r) /\ forall x, r <> Val (inl x).
+Proof. exact odd_number_of_flipped_bits_process_never_ok. Qed.
+
+Print Assumptions C02_odd_number_of_flipped_bits_never_accepted.
+Print Assumptions C02_odd_number_of_flipped_bits_process_inert.
